@@ -245,6 +245,9 @@ func checkC14(c genCase) pbt.Result {
 		if pbt.Known("F7") && !pbt.Replaying() && c.Edit == "hostile-field-name" && isF7(out) {
 			return pbt.Result{Excluded: "F7"}
 		}
+		if pbt.Known("F44") && !pbt.Replaying() && strings.Contains(out, "case-insensitive import collision") && strings.Contains(strings.Join(c.Args, " "), "--split-internal") {
+			return pbt.Result{Excluded: "F44"} // constructors that differ only by letter case, one package each
+		}
 		if pbt.Known("F41") && !pbt.Replaying() && strings.Contains(out, "imported and not used") && strings.Contains(strings.Join(c.Args, " "), "--split-internal") && strings.Contains(strings.Join(c.Args, " "), "--generateByteVersions=*") {
 			return pbt.Result{Excluded: "F41"} // dictionary of dictionaries under --split-internal --generateByteVersions=*
 		}
@@ -252,7 +255,7 @@ func checkC14(c genCase) pbt.Result {
 	}
 	_, files := treeHash(outdir)
 	pbt.InfoAdd("generated_files_built", int64(files))
-	return pbt.Result{NonTrivial: len(s.Combs) >= 6, Classes: append(cls, "built")}
+	return pbt.Result{NonTrivial: s != nil && len(s.Combs) >= 6, Classes: append(cls, "built")}
 }
 
 func TestC14Builds(t *testing.T) {
